@@ -77,3 +77,71 @@ taxon' after the warning that the reference had been discarded; obireffamidx and
 		},
 	})
 }
+
+func init() {
+	register(&Rule{
+		ID: "IX0", Props: []string{"C15"}, Min: 1,
+		Doc: `"assignment search … for any reference database": a reference read from a file may carry an index without any level ("obitag_ref_index":{}), and a database may hold no reference whose
+taxid the taxonomy knows. In pkg/obitools/obitag and obitag2 the test that decides to (re)build the index of a reference (the if whose body calls IndexSequence / the indexing helper) looks at the
+LENGTH of the index, not only at nil: on an empty map the descent over the levels of Identify never ends (obitag hung, killed by timeout); and CLIAssignTaxonomy ends the program when its loop
+left no reference, instead of indexing references[o[0]] of an empty list (index out of range).`,
+		Run: func(c *Ctx, s *Sink) {
+			c.EachFunc([]string{"pkg/obitools/obitag", "pkg/obitools/obitag2"}, func(p *packages.Package, fd *ast.FuncDecl) {
+				info := p.TypesInfo
+				n := 0
+				ast.Inspect(fd.Body, func(nd ast.Node) bool {
+					is, ok := nd.(*ast.IfStmt)
+					if !ok {
+						return true
+					}
+					builds := false
+					for _, st := range is.Body.List {
+						ast.Inspect(st, func(m ast.Node) bool {
+							if call, ok := m.(*ast.CallExpr); ok {
+								if fn := callee(info, call); fn != nil && strings.Contains(fn.Name(), "IndexSequence") {
+									builds = true
+								}
+							}
+							return true
+						})
+					}
+					if !builds {
+						return true
+					}
+					// the condition is about a map variable
+					var idx types.Object
+					ast.Inspect(is.Cond, func(m ast.Node) bool {
+						if id, ok := m.(*ast.Ident); ok {
+							if o := info.ObjectOf(id); o != nil {
+								if _, isMap := o.Type().Underlying().(*types.Map); isMap {
+									idx = o
+								}
+							}
+						}
+						return true
+					})
+					if idx == nil {
+						return true
+					}
+					n++
+					key := fmt.Sprintf("%s:index#%d:empty-index-rebuilt", funcName(p, fd), n)
+					hasLen := false
+					ast.Inspect(is.Cond, func(m ast.Node) bool {
+						if call, ok := m.(*ast.CallExpr); ok && len(call.Args) == 1 {
+							if id, ok := call.Fun.(*ast.Ident); ok && id.Name == "len" && rootObj(info, call.Args[0]) == idx {
+								hasLen = true
+							}
+						}
+						return true
+					})
+					if hasLen {
+						s.Pass(nil, key, is.Pos(), "an index without level is rebuilt as a missing one is")
+					} else {
+						s.Fail(nil, key, is.Pos(), "only a nil index is rebuilt: a reference carrying \"obitag_ref_index\":{} keeps its empty map, and the descent of Identify over the levels (d-- to -1, then d++ to 1001, then again) never ends — obitag hangs on that query")
+					}
+					return true
+				})
+			})
+		},
+	})
+}
